@@ -181,7 +181,8 @@ Inductive fltfmt := F32 | F64 | FUnspec | FBad.
 Inductive keyfmt := KNone | KInformal | KCustom | KUuid | KId62 | KNilType.
 (* KeyField.Entity: nil | primary_key = b | foreign_key | set with a nil Type *)
 Inductive entkey := ENone | EPrimary (b : bool) | EForeign | ENilType.
-Record int_rules := mkIR { ir_min : bool; ir_max : bool; ir_xmin : option bool; ir_xmax : option bool }.
+(* ir_bad: a present bound lies outside the range of the format, or minimum > maximum (checkIntegerBounds) *)
+Record int_rules := mkIR { ir_min : bool; ir_max : bool; ir_xmin : option bool; ir_xmax : option bool; ir_bad : bool }.
 
 Inductive fty :=
 | TObject (r : ref_out) (flatten rules : bool)
@@ -313,7 +314,8 @@ Definition resolve (r : ref_out) : M refkind :=
 (* ------------------------------------------------------------------ buildField *)
 Definition bad_int_rules (r : int_rules) : bool :=
   match ir_xmin r, ir_min r with Some false, false => true | _, _ => false end
-  || match ir_xmax r, ir_max r with Some false, false => true | _, _ => false end.
+  || match ir_xmax r, ir_max r with Some false, false => true | _, _ => false end
+  || (ir_bad r && (ir_min r || ir_max r)).
 
 Definition int_ptype (f : intfmt) : option ptype :=
   match f with I32 => Some PInt32 | I64 => Some PInt64 | U32 => Some PUint32 | U64 => Some PUint64 | _ => None end.
